@@ -325,6 +325,8 @@ def isinstance_(ctx, v, types):
 def py_min(ctx, *args, **kw):
     if kw:
         raise Unsupported('min with key/default')
+    if len(args) == 1 and hasattr(args[0], 'sym_min'):
+        return args[0].sym_min(ctx)
     xs = iterate(ctx, args[0]) if len(args) == 1 else list(args)
     if not xs:
         raise PyRaise('ValueError', note='min() of empty')
@@ -341,6 +343,8 @@ def py_min(ctx, *args, **kw):
 def py_max(ctx, *args, **kw):
     if kw:
         raise Unsupported('max with key/default')
+    if len(args) == 1 and hasattr(args[0], 'sym_max'):
+        return args[0].sym_max(ctx)
     xs = iterate(ctx, args[0]) if len(args) == 1 else list(args)
     if not xs:
         raise PyRaise('ValueError', note='max() of empty')
@@ -407,6 +411,9 @@ def py_range(ctx, *a):
 
 
 def py_enumerate(ctx, it, start=0):
+    if hasattr(it, 'seq_len') and not isinstance(it, (list, tuple)):
+        from .nparr import Enumerated
+        return Enumerated(it, start)
     return [(i + start, x) for i, x in enumerate(iterate(ctx, it))]
 
 
